@@ -58,7 +58,7 @@ CONSTANTS
   Avoid,         \* known loader / validator defects (known_findings.d/C14.json, C18.json) whose
                  \* trigger is NOT generated, so that larger random documents are not all masked
                  \* by them: subset of {"K1","K2","V1","V2","V3"} (C14/C18) and of
-                 \* {"AK" no anchors on keys, "HC" no indicator-looking comment text, "BC" no comment on a block scalar header, "SA" (YqWrite) no `get` of a
+                 \* {"AK" no anchors on keys, "HC" no indicator-looking comment text, "BC" no comment on a block scalar header, "DA" no anchor name declared in two documents, "SA" (YqWrite) no `get` of a
                  \* subtree that holds an alias to an anchor outside it} (C15, known_findings.d/C15.json); {} in the exhaustive small-scope runs
   Sim            \* TRUE under -simulate: every choice inside an action is drawn at random
                  \* (one successor per action kind), so random walks are cheap and the tree
@@ -269,6 +269,10 @@ Push(n, open) ==
   /\ nodes' = Append(nodes, n)
   /\ stack' = IF open THEN Append(stack, Len(nodes) + 1) ELSE stack
   /\ Used + 1 + Need(nodes', stack') <= MaxNodes
+  \* "DA": no anchor NAME (= node index) is declared in two documents of the stream
+  /\ ("DA" \in Avoid /\ n.an = 1 =>
+        \A d \in 1..Len(docs) :
+           IF Len(nodes) + 1 \in DOMAIN docs[d].nodes THEN docs[d].nodes[Len(nodes) + 1].an = 0 ELSE TRUE)
   /\ UNCHANGED <<docs, phase, br>>
 
 MoreDocs == Len(docs) < MaxDocs
